@@ -325,9 +325,42 @@ def name_wrapping(ctx, py: PyRepo):
     ctx.floor('name-wrapping', 1)
 
 
+def trace_pairs(ctx, py: PyRepo):
+    """the execution trace is a sequence of events and configurations in which a rule application is a rule event immediately
+    followed by the configuration it produced - at any position (side-condition, hook and function events shift the parity).  The
+    loop that turns the trace into rewrite steps must therefore look at EVERY adjacent pair (i, i+1); decided by evaluating the loop
+    header over four abstract trace entries (core/iterspace.py)."""
+    from ..core import iterspace as IS
+    from .c16 import inline_locals
+    mod = 'k.kore_convertion.rewrite_steps'
+    mi = py.modules.get(mod)
+    ctx.require(mi is not None and 'get_proof_hints' in mi.functions, 'anchor vanished: rewrite_steps.get_proof_hints')
+    fn = mi.functions['get_proof_hints']
+    loops = [n for n in ast.walk(fn) if isinstance(n, ast.For) and any(
+        isinstance(c, ast.Call) and isinstance(c.func, ast.Name) and c.func.id == 'isinstance' and len(c.args) == 2
+        and ast.unparse(c.args[1]).endswith('LLVMRuleEvent') for c in ast.walk(n))]
+    ctx.require(len(loops) == 1, 'get_proof_hints: the loop that picks the rule events out of the trace was not found')
+    lp = loops[0]
+    it = inline_locals(fn.body, lp.iter, {a.arg for a in fn.args.args})
+    bases = sorted({ast.unparse(n) for n in ast.walk(it) if isinstance(n, ast.Attribute) and n.attr == 'trace'})
+    ctx.require(len(bases) == 1, f'get_proof_hints: cannot tell which sequence `{ast.unparse(it)[:80]}` ranges over')
+    try:
+        seq = IS._seq(it, bases[0], {})
+    except IS.Unsupported as e:
+        ctx.require(False, f'get_proof_hints: loop header outside the evaluated subset: {e}')
+    pairs = {tuple(int(x) for x in t) for t in seq if isinstance(t, tuple) and len(t) == 2 and all(isinstance(x, IS.Elem) for x in t)}
+    want = {(i, i + 1) for i in range(IS.K - 1)}
+    ctx.ob('rewrite-typestate', 'trace-adjacent-pairs', pairs == want and len(seq) == len(pairs),
+           f'get_proof_hints walks the trace with `{ast.unparse(lp.iter)[:70]}`, which pairs the entries {sorted(pairs)} of a four-entry '
+           f'trace; a rule event followed by its configuration can start at ANY position, so all adjacent pairs {sorted(want)} have to be '
+           f'examined - otherwise rule applications are dropped silently and the module claims only part of the execution',
+           py.where(mod, lp), facts={'pairs': sorted(pairs)})
+
+
 def run(ctx):
     py = PyRepo.get()
     rewrite_event(ctx, py)
+    trace_pairs(ctx, py)
     conversion_scope(ctx, py)
     fresh_substitution(ctx, py)
     name_wrapping(ctx, py)
